@@ -56,6 +56,8 @@ fn main() {
     }
     if let Ok(path) = std::env::var("RDBMON_LOG") {
         install_file_logger(&path);
+    } else {
+        watch::install_evaluating_logger();
     }
     watch::install_panic_hook(verbose);
     watch::set_stall_limit(Duration::from_secs(props::stall_limit_secs(&prop)));
